@@ -1,10 +1,19 @@
 (* Pinned statements for C11: compiled on every check run. A statement weakened in Props/ fails here. *)
-From Coq Require Import List Arith Permutation.
-From TS Require Import Model.Str Model.Outcome Model.Types Model.TopsortAlgo Model.Topsort.
-From TS Require Proofs.ToposortPerm Proofs.SortByIndices Proofs.C11.
+From Coq Require Import List Arith Permutation String.
+From TS Require Import Model.Str Model.Outcome Model.Types Model.TopsortAlgo Model.Topsort Spec.C11Spec.
+From TS Require Proofs.ToposortPerm Proofs.SortByIndices Proofs.C11 Proofs.C11Link.
 Import ListNotations.
 Local Notation length := List.length (only parsing).
 Local Open Scope nat_scope.
+Local Open Scope string_scope.
+Local Open Scope list_scope.
+Local Notation w_struct := Proofs.C11Link.w_struct.
+Local Notation w_alias := Proofs.C11Link.w_alias.
+Local Notation w_const := Proofs.C11Link.w_const.
+Local Notation w_enum := Proofs.C11Link.w_enum.
+Local Notation w_field := Proofs.C11Link.w_field.
+Local Notation w_vsh := Proofs.C11Link.w_vsh.
+Local Notation w_s := Proofs.C11Link.w_s.
 From TS Require Props.C11.
 
 Goal forall g : graph, Forall (Forall (fun x => x < length g)) g ->
@@ -35,3 +44,67 @@ Goal forall (things : list ritem) (dag : list (list nat)) (d : ritem) (rank : na
               (forall r1 x r2 deps, r = r1 ++ x :: r2 -> nth_error dag x = Some deps -> incl deps r1).
 Proof. exact Props.C11.C11_topsort_respects_collected_graph_partial. Qed.
 Print Assumptions Props.C11.C11_topsort_respects_collected_graph_partial.
+Goal forall things : list ritem, known_C11 things = None ->
+    exists dag, build_dag things = Ok dag /\
+      forall i a row, nth_error things i = Some a -> nth_error dag i = Some row ->
+        if Proofs.C11Link.is_enum a
+        then (forall b, In b things -> refers a b = false) /\ (row = [] \/ exists rest, row = i :: rest)
+        else forall j b, nth_error things j = Some b -> (In j row <-> refers a b = true).
+Proof. exact Props.C11.C11_collected_graph_is_reference_graph. Qed.
+Print Assumptions Props.C11.C11_collected_graph_is_reference_graph.
+Goal forall things : list ritem, known_C11 things = None -> acyclic things = true ->
+    exists out, topsort things = Ok out /\ Permutation out things /\ topo_ok out = true.
+Proof. exact Props.C11.C11_topsort_topological. Qed.
+Print Assumptions Props.C11.C11_topsort_topological.
+Goal forall out : list ritem, topo_ok out = true <->
+    forall o1 a o2 b, out = o1 ++ a :: o2 -> In b o2 -> refers a b = false.
+Proof. exact Props.C11.C11_topo_ok_meaning. Qed.
+Print Assumptions Props.C11.C11_topo_ok_meaning.
+Goal forall things : list ritem, alias_generic_shadows things = false ->
+    exists out, topsort things = Ok out /\ Permutation out things.
+Proof. exact Props.C11.C11_topsort_total_permutation. Qed.
+Print Assumptions Props.C11.C11_topsort_total_permutation.
+Goal forall things : list ritem, known_C11 things = None ->
+    exists out, topsort things = Ok out /\ good_C11 things out = true.
+Proof. exact Props.C11.C11_topsort_good. Qed.
+Print Assumptions Props.C11.C11_topsort_good.
+Goal forall g : graph, toposort_impl g = toposort_impl (Proofs.C11Link.clean g).
+Proof. exact Props.C11.C11_toposort_impl_ignores_self_started_rows. Qed.
+Print Assumptions Props.C11.C11_toposort_impl_ignores_self_started_rows.
+Goal Proofs.C11Link.c11_refutes "C11-generic-param-shadow"
+    [w_struct "A" ["T"] [w_s "T"; w_s "B"]; w_struct "B" [] []; w_struct "T" [] [RGeneric (lit "A") [RPrim PU8]]].
+Proof. exact Props.C11.C11_generic_param_shadow_refuted. Qed.
+Print Assumptions Props.C11.C11_generic_param_shadow_refuted.
+Goal Proofs.C11Link.c11_refutes "C11-special-id-collision"
+    [w_struct "A" [] [RGeneric (lit "G") [RVec (RPrim PU8)]; w_s "B"]; w_struct "B" [] [];
+     w_struct "G" ["T"] [w_s "T"]; w_struct "Vec" [] [w_s "A"]].
+Proof. exact Props.C11.C11_special_id_collision_refuted. Qed.
+Print Assumptions Props.C11.C11_special_id_collision_refuted.
+Goal Proofs.C11Link.c11_refutes "C11-alias-generic-shadow"
+    [w_alias "A" ["T"] (RVec (w_s "T")); w_struct "T" [] [RGeneric (lit "A") [RPrim PU8]]].
+Proof. exact Props.C11.C11_alias_generic_shadow_refuted. Qed.
+Print Assumptions Props.C11.C11_alias_generic_shadow_refuted.
+Goal Proofs.C11Link.c11_refutes "C11-duplicate-names"
+    [w_struct "A" [] [w_s "X"]; w_struct "X" [] []; w_const "X" (RPrim PU32)].
+Proof. exact Props.C11.C11_duplicate_names_refuted. Qed.
+Print Assumptions Props.C11.C11_duplicate_names_refuted.
+Goal Proofs.C11Link.c11_refutes "C11-variant-fields" [w_enum "E" [VAnon [w_field (w_s "B")] w_vsh]; w_struct "B" [] []].
+Proof. exact Props.C11.C11_variant_fields_refuted. Qed.
+Print Assumptions Props.C11.C11_variant_fields_refuted.
+Goal Proofs.C11Link.c11_refutes "C11-enum-self-edge" [w_enum "E" [VTuple (w_s "B") w_vsh]; w_struct "B" [] []].
+Proof. exact Props.C11.C11_enum_self_edge_refuted. Qed.
+Print Assumptions Props.C11.C11_enum_self_edge_refuted.
+Goal Proofs.C11Link.c11_refutes "C11-generic-arg-depth"
+    [w_struct "A" [] [RGeneric (lit "Unknown") [w_s "B"]]; w_struct "B" [] []].
+Proof. exact Props.C11.C11_generic_arg_depth_refuted. Qed.
+Print Assumptions Props.C11.C11_generic_arg_depth_refuted.
+Goal Proofs.C11Link.c11_refutes "C11-generic-arg-depth"
+    [w_struct "Foo" ["T"] [RGeneric (lit "Foo") [w_s "Zed"]]; w_struct "Zed" [] []].
+Proof. exact Props.C11.C11_generic_arg_depth_own_name_refuted. Qed.
+Print Assumptions Props.C11.C11_generic_arg_depth_own_name_refuted.
+Goal Proofs.C11Link.c11_refutes "C11-renamed"
+    [w_alias "A" [] (RVec (w_s "SR"));
+     ItStruct {| sid := {| original := lit "S"; renamed := lit "SR"; via_serde_rename := true |}; sgenerics := [];
+                 sfields := []; scomments := []; sdecs := []; sredacted := false |}].
+Proof. exact Props.C11.C11_renamed_refuted. Qed.
+Print Assumptions Props.C11.C11_renamed_refuted.
